@@ -546,6 +546,8 @@ func (t *trajSpace) eventOps() []Op {
 			ops = append(ops, Op{K: "commit", N: 1}, Op{K: "commit", N: 3}, Op{K: "ncommit", N: 2})
 		case "ev:commit1":
 			ops = append(ops, Op{K: "commit", N: 1})
+		case "ev:ncommit":
+			ops = append(ops, Op{K: "ncommit", N: 2})
 		case "ev:cdrop":
 			ops = append(ops, Op{K: "cdrop"})
 		case "ev:creopen":
